@@ -103,7 +103,10 @@ func (s *JumpMark) Process(ctx context.Context, man gdbi.Manager, in gdbi.InPipe
 					time.Sleep(time.Microsecond)
 				}
 			}
-			for _, i := range closeList {
+			// remove from the back, so that the remaining positions stay valid
+			// when several jumps closed in the same round
+			for k := len(closeList) - 1; k >= 0; k-- {
+				i := closeList[k]
 				s.inputs = append(s.inputs[:i], s.inputs[i+1:]...)
 			}
 
